@@ -324,8 +324,20 @@ def judge_bytes(dv_in: A.DocView, op, res, pred: M.Prediction, segs: list[str], 
             return keys
         starts = [first]
         a = first
-        while a - 1 >= 0 and lines[a - 1].lstrip().startswith("#"):
-            a -= 1
+        while a - 1 >= 0:
+            above = lines[a - 1].strip()
+            if above.startswith("#"):
+                a -= 1
+            elif above.endswith("*/"):
+                # a block comment, possibly over several lines: up to the line that opens it
+                b0 = a - 1
+                while b0 >= 0 and "/*" not in lines[b0]:
+                    b0 -= 1
+                if b0 < 0 or not lines[b0].lstrip().startswith("/*"):
+                    break
+                a = b0
+            else:
+                break
         if a != first:
             starts.append(a)
         for s0 in list(starts):
